@@ -13,6 +13,9 @@ import (
 func (g *Gen) writeCell(st *State, key, elemSort, a, v string) {
 	h := g.heap(st, key, elemSort)
 	g.setHeap(st, key, Term{sto(h.S, a, v), h.Sort})
+	if key == "H_Int_uint8" {
+		g.bytesFrame(st.heaps[key].S, h.S, "(or (= (elemArr "+a+") Nil) (not (= (sarr s) (elemArr "+a+"))))")
+	}
 	if g.wlog != nil {
 		g.wlog.add(g, key, elemSort, a, "")
 	}
@@ -168,6 +171,9 @@ func (fr *Frame) execInstr(ins ssa.Instruction, c *blockCtx) {
 	case *ssa.Call:
 		res := fr.execCall(ins, &ins.Call, c)
 		fr.bindCallResults(ins, res)
+		for _, a := range ins.Call.Args {
+			fr.syncArrView(a, c.st) // a callee may have written through a slice view of a local array
+		}
 	case *ssa.Defer:
 		fr.execDefer(ins, c)
 	case *ssa.RunDefers:
@@ -682,11 +688,17 @@ func (fr *Frame) execSlice(ins *ssa.Slice, c *blockCtx) {
 			if arr.Len() > 128 {
 				g.fail("slice of large leaf array")
 			}
-			whole := g.loadLeaf(c.st, x.S, xt.Elem())
-			w := g.sc.Define("arrview", whole)
 			es := g.sortOf(arr.Elem())
-			for k := int64(0); k < arr.Len(); k++ {
-				g.writeCell(c.st, g.heapKeyT(arr.Elem()), es, fmt.Sprintf("(Elem %s %d)", x.S, k), sel(w.S, fmt.Sprint(k)))
+			wk, ek := g.heapKeyT(xt.Elem()), g.heapKeyT(arr.Elem())
+			if rec, ok := g.arrSync[x.S]; ok && rec[0] == g.heap(c.st, wk, g.sortOf(xt.Elem())).S && rec[1] == g.heap(c.st, ek, es).S {
+				// element view and whole-array cell are still in sync: nothing to materialise
+			} else {
+				whole := g.loadLeaf(c.st, x.S, xt.Elem())
+				w := g.sc.Define("arrview", whole)
+				for k := int64(0); k < arr.Len(); k++ {
+					g.writeCell(c.st, ek, es, fmt.Sprintf("(Elem %s %d)", x.S, k), sel(w.S, fmt.Sprint(k)))
+				}
+				g.arrSync[x.S] = [2]string{g.heap(c.st, wk, g.sortOf(xt.Elem())).S, g.heap(c.st, ek, es).S}
 			}
 			fr.arrViews[ins] = arrView{arr: x, t: xt.Elem()}
 		}
@@ -721,6 +733,7 @@ func (fr *Frame) syncArrView(v ssa.Value, st *State) {
 		cur = sto(cur, fmt.Sprint(k), sel(h.S, fmt.Sprintf("(Elem %s %d)", av.arr.S, k)))
 	}
 	g.writeCell(st, g.heapKeyT(av.t), s, av.arr.S, cur)
+	g.arrSync[av.arr.S] = [2]string{g.heap(st, g.heapKeyT(av.t), s).S, g.heap(st, g.heapKeyT(arr.Elem()), es).S}
 }
 
 // ---------- maps ----------
@@ -843,4 +856,14 @@ func (fr *Frame) execPanic(ins *ssa.Panic, c *blockCtx) {
 	}
 	fr.callOrd["panic"]++
 	g.oblige("safety", fr.oname("safety", fmt.Sprintf("panic@%d", fr.callOrd["panic"])), c.reach, allowed, "explicit panic", true)
+}
+
+// bytesFrame: the abstract content bytes(s) of a byte slice is unchanged by writes outside its backing array.
+func (g *Gen) bytesFrame(newHeap, oldHeap, unaffected string) {
+	g.declSort("Bytes")
+	g.sc.DeclareOnce("bytesOf", "(declare-fun bytesOf ((Array Ref Int) Slice) Bytes)")
+	if newHeap == oldHeap {
+		return
+	}
+	g.sc.Assume(fmt.Sprintf("(forall ((s Slice)) (! (=> %s (= (bytesOf %s s) (bytesOf %s s))) :pattern ((bytesOf %s s))))", unaffected, newHeap, oldHeap, newHeap))
 }
